@@ -19,6 +19,7 @@ import (
 	"github.com/ava-labs/hypersdk/chain"
 	"github.com/ava-labs/hypersdk/event"
 	"github.com/ava-labs/hypersdk/internal/pebble"
+	"github.com/ava-labs/hypersdk/internal/verifhook"
 )
 
 const (
@@ -113,6 +114,7 @@ func (i *Indexer) initBlocks() error {
 }
 
 func (i *Indexer) Notify(_ context.Context, blk *chain.ExecutedBlock) error {
+	verifhook.AwaitLock("indexer.Notify", 0, &i.mu)
 	i.mu.Lock()
 	i.insertBlockIntoCache(blk)
 	i.mu.Unlock()
@@ -189,6 +191,7 @@ func (i *Indexer) storeBlock(blk *chain.ExecutedBlock) error {
 }
 
 func (i *Indexer) GetLatestBlock() (*chain.ExecutedBlock, error) {
+	verifhook.AwaitRLock("indexer.GetLatestBlock", 0, &i.mu)
 	i.mu.RLock()
 	defer i.mu.RUnlock()
 
@@ -199,6 +202,7 @@ func (i *Indexer) GetLatestBlock() (*chain.ExecutedBlock, error) {
 }
 
 func (i *Indexer) GetBlockByHeight(height uint64) (*chain.ExecutedBlock, error) {
+	verifhook.AwaitRLock("indexer.GetBlockByHeight", 0, &i.mu)
 	i.mu.RLock()
 	defer i.mu.RUnlock()
 
@@ -214,6 +218,7 @@ func (i *Indexer) getBlockByHeight(height uint64) (*chain.ExecutedBlock, error) 
 }
 
 func (i *Indexer) GetBlock(blkID ids.ID) (*chain.ExecutedBlock, error) {
+	verifhook.AwaitRLock("indexer.GetBlock", 0, &i.mu)
 	i.mu.RLock()
 	defer i.mu.RUnlock()
 
@@ -225,6 +230,7 @@ func (i *Indexer) GetBlock(blkID ids.ID) (*chain.ExecutedBlock, error) {
 }
 
 func (i *Indexer) GetTransaction(txID ids.ID) (bool, *chain.Transaction, int64, *chain.Result, error) {
+	verifhook.AwaitLock("indexer.GetTransaction", 0, &i.mu)
 	i.mu.Lock()
 	defer i.mu.Unlock()
 
